@@ -258,6 +258,9 @@ func (ex *Exec) resetPath(prefix []int64) {
 	ex.guard = nil
 	ex.spec = 0
 	ex.rngCache = map[int]rng{}
+	ex.realRange = map[int]rint{}
+	ex.realInt = map[int]bool{}
+	ex.emitted = nil
 	ex.unlockedReads = map[interface{}]bool{}
 	ex.writtenTagged = map[interface{}]bool{}
 	ex.varRng = map[int]rng{}
